@@ -292,4 +292,22 @@ theorem nthMark_isSome_iff (mask n : Nat) :
 
 example : nthMark 0xf0 1 = some 32 := by decide
 
+/-! ### 6. Go `int` block sizes -/
+
+/-- `NextBlockBitsMark(size)` with a negative size hands out nothing, leaves the
+manager unchanged and returns the size itself; with a non-negative size it is
+the `Nat` model the allocation theorems are about. -/
+theorem negative_block_allocates_nothing (m : Mgr) (size : Int) :
+    (size < 0 → m.nextBlockInt size = (m, 0, size)) ∧
+    (0 ≤ size → m.nextBlockInt size =
+      ((m.nextBlock size.toNat 0 0).1, (m.nextBlock size.toNat 0 0).2.1,
+        ((m.nextBlock size.toNat 0 0).2.2 : Int))) := by
+  constructor
+  · intro h; simp [Mgr.nextBlockInt, h]
+  · intro h
+    have : ¬ size < 0 := by omega
+    simp [Mgr.nextBlockInt, this]
+
+example : (Mgr.new 0xf0).nextBlockInt (-3) = (Mgr.new 0xf0, 0, -3) := by decide
+
 end CalicoVerif.C35
